@@ -84,12 +84,12 @@ Proof.
     + unfold patch_fields_cap in P.
       destruct (rm r), (ipt it), (ipf it), b as [|b]; simpl in *; inversion P; subst; lia.
   - destruct cr.
-    + destruct (patch_fields_cap false (ipf it) b) as [ok b1] eqn:P.
+    + destruct (patch_fields_cap false (ipc it) b) as [ok b1] eqn:P.
       destruct ok; intro H; inversion H; subst; clear H.
       * rewrite matching_app. simpl. unfold patch_fields_cap in P. unfold bn.
-        destruct (ipf it), b as [|b]; simpl in *; inversion P; subst; lia.
+        destruct (ipc it), b as [|b]; simpl in *; inversion P; subst; lia.
       * unfold patch_fields_cap in P.
-        destruct (ipf it), b as [|b]; simpl in *; inversion P; subst; lia.
+        destruct (ipc it), b as [|b]; simpl in *; inversion P; subst; lia.
     + intro H; inversion H; subst. lia.
 Qed.
 
@@ -302,7 +302,7 @@ Qed.
 
 (* ---- non-vacuity -------------------------------------------------------------------------- *)
 Definition r_ (k : N) (m x d : bool) : rec := {| rk := k; rm := m; rx := x; rd := d |}.
-Definition it_ (k : N) (pf pt : bool) : item := {| ik := k; ipf := pf; ipt := pt |}.
+Definition it_ (k : N) (pf pt : bool) : item := {| ik := k; ipf := pf; ipt := pt; ipc := pf |}.
 
 Definition ex_recs : list rec := [r_ 1 false true true; r_ 2 false true true; r_ 3 true false false; r_ 4 false false false].
 Definition ex_progs : list prog :=
